@@ -85,3 +85,75 @@ Example C18_example_chain :
   print (canon example_ast) = print example_ast /\
   canon example_ast <> example_ast.
 Proof. exact example_roundtrip. Qed.
+
+(* ---- the character level, in full ----
+   [printable a]: every identifier of [a] is one the lexer takes as one word ([ident_ok]: ASCII
+   identifiers and the non-ASCII code points the model lexer classifies), every integer literal
+   is an optional minus sign and digits ([int_ok]), a constant's literal is of the kind its type
+   says ([const_ok]: [str_ok] = a closed string literal, [uuid_ok] = the 8-4-4-4-12 form), every
+   comment / doc text is one line with nothing to trim at its end ([text_ok]: what value_inner()
+   returns).  No condition on field names: a field called "required" lexes back to the same
+   tokens — it is the token-level parser that reads them differently (wf_ast in C18_parse_toks). *)
+From Aldrin Require Import Schema.PrintLex Schema.PrintLexProofs.
+
+Theorem C18_print_tokens : forall a, printable a -> tokenize (print a) = toks a.
+Proof. exact print_tokens. Qed.
+Print Assumptions C18_print_tokens.
+
+(* the property on the model: parsing the formatted text gives the schema back (imports sorted) *)
+Theorem C18_format_preserves : forall a, wf_ast a -> printable a ->
+  parse_toks (tokenize (print a)) = Some (canon a).
+Proof. exact format_preserves. Qed.
+Print Assumptions C18_format_preserves.
+
+(* ... and formatting what was parsed from the formatted text gives the same text *)
+Theorem C18_format_idempotent_chars : forall a, wf_ast a -> printable a ->
+  option_map print (parse_toks (tokenize (print a))) = Some (print a).
+Proof. exact format_idempotent_chars. Qed.
+Print Assumptions C18_format_idempotent_chars.
+
+Theorem C18_printable_canon : forall a, printable a -> printable (canon a).
+Proof. exact printable_canon. Qed.
+Print Assumptions C18_printable_canon.
+
+(* each leaf condition says: this leaf, on its own, is one token of its kind *)
+Theorem C18_leaf_conditions :
+  (forall w, ident_ok w = true -> tokenize w = [TWord w true]) /\
+  (forall d, int_ok d = true -> tokenize d = [TInt d]) /\
+  (forall v, str_ok v = true -> tokenize v = [TStr v]) /\
+  (forall v, uuid_ok v = true -> tokenize v = [TUuid v]) /\
+  (forall s, text_ok s = true -> tokenize ("//" ++ line_body s ++ LF) = [TComment s]).
+Proof. exact leaf_conditions. Qed.
+Print Assumptions C18_leaf_conditions.
+
+Example C18_printable_satisfiable : printable example_ast.
+Proof. exact example_printable. Qed.
+
+Example C18_printable_nonascii : printable nonascii_ast.
+Proof. exact nonascii_printable. Qed.
+
+(* ---- for every source text ----
+   the lexer only emits leaves that satisfy the leaf conditions and the parser only moves token
+   payloads into the AST, so everything that parses is printable ... *)
+From Aldrin Require Import Schema.PrintLexReach.
+
+Theorem C18_parse_printable : forall src a, parse_toks (tokenize src) = Some a -> printable a.
+Proof. exact parse_printable. Qed.
+Print Assumptions C18_parse_printable.
+
+(* ... and the property holds on the model for every source text that parses, at the character
+   level, under the one condition the defect violates: the formatted text parses to the same
+   schema (imports sorted), and formatting that again gives the same text *)
+Theorem C18_format_roundtrip : forall src a,
+  parse_toks (tokenize src) = Some a -> no_bare_required a ->
+  parse_toks (tokenize (print a)) = Some (canon a) /\
+  option_map print (parse_toks (tokenize (print a))) = Some (print a).
+Proof. exact format_roundtrip. Qed.
+Print Assumptions C18_format_roundtrip.
+
+Theorem C18_format_fixpoint : forall src a,
+  parse_toks (tokenize src) = Some a -> no_bare_required a ->
+  exists a', parse_toks (tokenize (print a)) = Some a' /\ print a' = print a /\
+             printable a' /\ canon a' = a'.
+Proof. exact format_fixpoint. Qed.
+Print Assumptions C18_format_fixpoint.
